@@ -87,6 +87,8 @@ type sqlParser struct {
 	args    []string // Lean terms for ?1, ?2, …; "\x00" marks an argument that is named by its role in the statement
 	nextPar int
 	src     string
+	lastSetCols []string       // columns of the SET list parsed last
+	sig         string         // shape signature of the statement parsed (see "naming by shape")
 	excluded map[string]string // in a conflict arm: column -> the expression the VALUES list gives it (`excluded.<col>`)
 	role    string         // role of the placeholder being parsed: "<col>" in VALUES / SET, "where.<col>" in `col = ?`
 	names   map[int]string // role names given so far
@@ -317,20 +319,41 @@ func (p *sqlParser) prim() string {
 }
 
 func (p *sqlParser) sets() string {
-	var items []string
+	// SET items are emitted sorted by column (every right-hand side sees the old row and a column is assigned once, so the order means nothing);
+	// the signature records, per column, whether it is assigned a literal (`N` = NULL, digits = that integer)
+	type item struct{ col, term, sig string }
+	var items []item
+	seen := map[string]bool{}
 	for {
 		c := p.col()
+		if seen[c] {
+			fail("sql: column %s assigned twice in %q", c, p.src)
+		}
+		seen[c] = true
 		p.expectOp("=")
 		p.role = strings.TrimPrefix(c, ".")
 		e := p.expr()
 		p.role = ""
-		items = append(items, fmt.Sprintf("(%s, %s)", c, e))
+		sig := strings.TrimPrefix(c, ".")
+		if e == "(.lit .null)" {
+			sig += "N"
+		} else if strings.HasPrefix(e, "(.lit (.int ") {
+			sig += strings.TrimSuffix(strings.TrimPrefix(e, "(.lit (.int "), "))")
+		}
+		items = append(items, item{c, fmt.Sprintf("(%s, %s)", c, e), sig})
 		if !p.isOp(",") {
 			break
 		}
 		p.pos++
 	}
-	return "[" + strings.Join(items, ", ") + "]"
+	sort.Slice(items, func(i, j int) bool { return items[i].col < items[j].col })
+	p.lastSetCols = nil
+	var terms []string
+	for _, it := range items {
+		p.lastSetCols = append(p.lastSetCols, it.sig)
+		terms = append(terms, it.term)
+	}
+	return "[" + strings.Join(terms, ", ") + "]"
 }
 
 func (p *sqlParser) table() {
@@ -356,6 +379,7 @@ func (p *sqlParser) statement() (string, string) {
 		if p.peek().kind != "eof" {
 			fail("sql: trailing tokens in %q", p.src)
 		}
+		p.sig = "upd_" + sortedCols(p.lastSetCols) + "__by_" + condSig(cond)
 		return "Update", fmt.Sprintf("{ sets := %s,\n    cond := %s }", sets, cond)
 	case p.isKw("insert"):
 		p.pos++
@@ -415,6 +439,9 @@ func (p *sqlParser) statement() (string, string) {
 				cond = p.expr()
 			}
 			conflict = fmt.Sprintf("some (%s,\n      %s)", sets, cond)
+			p.sig = "ups_" + sortedCols(cols) + "__set_" + sortedCols(p.lastSetCols) + "__if_" + condSig(cond)
+		} else {
+			p.sig = "ins_" + sortedCols(cols)
 		}
 		if p.peek().kind != "eof" {
 			fail("sql: trailing tokens in %q", p.src)
@@ -466,10 +493,87 @@ type sqlLit struct {
 	pos  token.Pos
 }
 
+// ---- naming by shape -------------------------------------------------------------------------------------------------------
+// A statement is named after what it does (kind, assigned columns, the shape of its condition), not after the Go function it stands in:
+// moving it to a helper, or renaming the function, changes no name. Statements whose terms are identical are emitted once.
+
+func splitConjuncts(t string) []string {
+	if strings.HasPrefix(t, "(.and ") && strings.HasSuffix(t, ")") {
+		body := t[len("(.and ") : len(t)-1]
+		depth := 0
+		for i, c := range body {
+			if c == '(' {
+				depth++
+			} else if c == ')' {
+				depth--
+				if depth == 0 {
+					return append(splitConjuncts(body[:i+1]), splitConjuncts(strings.TrimSpace(body[i+1:]))...)
+				}
+			}
+		}
+	}
+	return []string{t}
+}
+
+var conjShapes = []struct {
+	re  *regexp.Regexp
+	fmt string
+}{
+	{regexp.MustCompile(`^\(\.eq \(\.col \.(\w+)\) \(\.par "[^"]*"\)\)$`), "%s"},
+	{regexp.MustCompile(`^\(\.eq \(\.col \.(\w+)\) \(\.lit \(\.int (\d+)\)\)\)$`), "%sIs%s"},
+	{regexp.MustCompile(`^\(\.ne \(\.col \.(\w+)\) \(\.lit \(\.int (\d+)\)\)\)$`), "%sNot%s"},
+	{regexp.MustCompile(`^\(\.notNull \(\.col \.(\w+)\)\)$`), "%sSet"},
+	{regexp.MustCompile(`^\(\.isNull \(\.col \.(\w+)\)\)$`), "%sNull"},
+	{regexp.MustCompile(`^\(\.le \(\.par "[^"]*"\) \(\.col \.(\w+)\)\)$`), "%sGe"},
+	{regexp.MustCompile(`^\(\.lt \(\.par "[^"]*"\) \(\.col \.(\w+)\)\)$`), "%sGt"},
+	{regexp.MustCompile(`^\(\.le \(\.col \.(\w+)\) \(\.par "[^"]*"\)\)$`), "%sLe"},
+	{regexp.MustCompile(`^\(\.lt \(\.lit \(\.int 0\)\) \(\.col \.(\w+)\)\)$`), "%sPos"},
+}
+
+func condSig(t string) string {
+	if t == "(.lit (.int 1))" {
+		return "all"
+	}
+	var parts []string
+	for _, c := range splitConjuncts(t) {
+		sig := "x"
+		for _, sh := range conjShapes {
+			if m := sh.re.FindStringSubmatch(c); m != nil {
+				args := make([]any, len(m)-1)
+				for i := range args {
+					args[i] = m[i+1]
+				}
+				sig = fmt.Sprintf(sh.fmt, args...)
+				break
+			}
+		}
+		if sig == "x" && strings.HasPrefix(c, "(.or ") {
+			sig = "or"
+		}
+		parts = append(parts, sig)
+	}
+	sort.Strings(parts)
+	return strings.Join(parts, "_")
+}
+
+func sortedCols(cols []string) string {
+	c := make([]string, len(cols))
+	for i, x := range cols {
+		c[i] = strings.TrimPrefix(x, ".")
+	}
+	sort.Strings(c)
+	return strings.Join(c, "_")
+}
+
+type sqlItem struct {
+	fn, kind, term, sig, src string
+}
+
 func genSql(funcs map[string]*fn, names []string) string {
 	var sb strings.Builder
 	sb.WriteString("/- GENERATED by /verif/tools/gen from /repo. Do not edit. -/\nimport Rosmar.Sql\nnamespace Rosmar.Gen.Sql\nopen Rosmar.Sql\n\n")
 	var index []string
+	var items []sqlItem
 	for _, n := range names {
 		f := funcs[n]
 		// literals directly in Exec calls, or assigned to a variable that is passed to Exec
@@ -522,7 +626,6 @@ func genSql(funcs map[string]*fn, names []string) string {
 			}
 			return true
 		})
-		counts := map[string]int{}
 		for _, c := range calls {
 			lits := c.lits
 			if len(lits) == 1 && strings.HasPrefix(lits[0].text, "\x00") {
@@ -545,20 +648,13 @@ func genSql(funcs map[string]*fn, names []string) string {
 					if p.peek().kind != "eof" {
 						fail("sql: trailing tokens in fragment %q", l.text)
 					}
-					k := base + "_AND"
-					name := fmt.Sprintf("%s_%d", k, counts[k])
-					counts[k]++
-					fmt.Fprintf(&sb, "/-- `%s`: fragment appended to the statement before it: %s -/\ndef %s : E :=\n  %s\n\n", n, strconv.Quote(s), name, e)
-					index = append(index, fmt.Sprintf("(%q, \"E\")", name))
+					_ = base
+					items = append(items, sqlItem{n, "E", e, "frag_and_" + condSig(e), "fragment appended to the statement before it: " + strconv.Quote(s)})
 					continue
 				}
 				p := &sqlParser{toks: sqlLex(l.text), args: args, src: l.text}
 				kind, term := p.statement()
-				k := base + "_" + strings.ToUpper(map[string]string{"Update": "UPDATE", "Upsert": "INSERT"}[kind])
-				name := fmt.Sprintf("%s_%d", k, counts[k])
-				counts[k]++
-				fmt.Fprintf(&sb, "/-- `%s`: %s -/\ndef %s : %s :=\n  %s\n\n", n, strconv.Quote(strings.Join(strings.Fields(l.text), " ")), name, kind, term)
-				index = append(index, fmt.Sprintf("(%q, %q)", name, kind))
+				items = append(items, sqlItem{n, kind, term, p.sig, strconv.Quote(strings.Join(strings.Fields(l.text), " "))})
 			}
 		}
 	}
@@ -597,15 +693,64 @@ func genSql(funcs map[string]*fn, names []string) string {
 						p.pos++
 					}
 				}
-				name := fmt.Sprintf("%s_WHERE_%d", strings.ReplaceAll(n, ".", "_"), count)
 				count++
-				fmt.Fprintf(&sb, "/-- `%s`: … FROM documents WHERE %s -/\ndef %s : Select :=\n  { cond := %s,\n    orderBy := [%s] }\n\n", n, strconv.Quote(strings.Join(strings.Fields(rest), " ")), name, e, strings.Join(order, ", "))
-				index = append(index, fmt.Sprintf("(%q, \"Select\")", name))
+				sig := "sel_by_" + condSig(e)
+				if len(order) > 0 {
+					sig += "__order_" + strings.ReplaceAll(strings.Join(order, "_"), ".", "")
+				}
+				items = append(items, sqlItem{n, "Select", fmt.Sprintf("{ cond := %s,\n    orderBy := [%s] }", e, strings.Join(order, ", ")), sig,
+					"… FROM documents WHERE " + strconv.Quote(strings.Join(strings.Fields(rest), " "))})
 			}
 			return false // the parts of a constant expression are not statements of their own
 		})
 	}
-	// every write statement that the fact extractor saw must have been parsed here
-	sb.WriteString("/-- The statements translated above. -/\ndef index : List (String × String) := [\n  " + strings.Join(index, ",\n  ") + "]\n\nend Rosmar.Gen.Sql\n")
+	// name by shape; identical terms are one definition; different terms of one shape are numbered in the order of their text
+	bySig := map[string][]string{} // sig -> distinct terms
+	for _, it := range items {
+		found := false
+		for _, t := range bySig[it.sig] {
+			if t == it.term {
+				found = true
+			}
+		}
+		if !found {
+			bySig[it.sig] = append(bySig[it.sig], it.term)
+		}
+	}
+	nameOf := func(it sqlItem) string {
+		ts := append([]string{}, bySig[it.sig]...)
+		sort.Strings(ts)
+		if len(ts) == 1 {
+			return it.sig
+		}
+		for i, t := range ts {
+			if t == it.term {
+				return fmt.Sprintf("%s_v%d", it.sig, i+1)
+			}
+		}
+		return it.sig
+	}
+	emitted := map[string]bool{}
+	var uses []string
+	sort.SliceStable(items, func(i, j int) bool { return nameOf(items[i]) < nameOf(items[j]) })
+	for _, it := range items {
+		name := nameOf(it)
+		uses = append(uses, fmt.Sprintf("(%q, %q)", it.fn, name))
+		if emitted[name] {
+			continue
+		}
+		emitted[name] = true
+		var where []string
+		for _, o := range items {
+			if nameOf(o) == name {
+				where = append(where, "`"+o.fn+"`")
+			}
+		}
+		fmt.Fprintf(&sb, "/-- %s: %s -/\ndef %s : %s :=\n  %s\n\n", strings.Join(where, ", "), it.src, name, it.kind, it.term)
+		index = append(index, fmt.Sprintf("(%q, %q)", name, it.kind))
+	}
+	sort.Strings(uses)
+	sb.WriteString("/-- The statements translated above. -/\ndef index : List (String × String) := [\n  " + strings.Join(index, ",\n  ") + "]\n\n")
+	sb.WriteString("/-- Which Go function uses which statement / WHERE clause (function, definition). -/\ndef uses : List (String × String) := [\n  " + strings.Join(uses, ",\n  ") + "]\n\nend Rosmar.Gen.Sql\n")
 	return sb.String()
 }
